@@ -7,7 +7,15 @@ for f in sys.argv[1:]:
         m = re.match(r'(C\d+-\d+) (CAUGHT|MISSED)\s*(.*)', l)
         if m:
             res[m.group(1)] = (m.group(2), m.group(3).strip())
-cross = {'C06-5': 'C05', 'C01-7': 'C05', 'C04-8': 'C20 (and C05)', 'C14-7': 'C15', 'C16-7': 'C15', 'C06-9': 'C12', 'C20-8': 'C05'}
+cross = {'C06-5': 'C05', 'C01-7': 'C05', 'C04-8': 'C20 (and C05)', 'C14-7': 'C15', 'C16-7': 'C15', 'C06-9': 'C12', 'C20-8': 'C05',
+         'C06-7': 'C05', 'C06-10': 'C05', 'C01-10': 'C16', 'C14-12': 'C16'}
+# lines "<id> CROSS <check> CAUGHT|MISSED" in the logs (tools/cross_matrix.sh) confirm the cross catches
+cross_res = {}
+for f in sys.argv[1:]:
+    for l in open(f):
+        m = re.match(r'(C\d+-\d+) CROSS (C\d+) (CAUGHT|MISSED)', l)
+        if m:
+            cross_res[m.group(1)] = (m.group(2), m.group(3))
 not_caught = {
  'C01-8': 'needs two threads inside one chain (or an asynchronous KeyboardInterrupt inside run): taskchain chains are not thread-safe and no listed property speaks about threads in a chain; storesim simulates one thread per process',
  'C02-7': 'needs a run body that mutates its parameter value in place; generated run bodies are pure functions of their arguments (the properties assume deterministic computations)',
@@ -19,6 +27,15 @@ not_caught = {
  'C12-7': 'only the log of a failed attempt moves; nothing is demanded of the log after a failed attempt (DESIGN: relaxations)',
  'C13-9': 'MultiChain construction made concurrent: manifests only under a real thread race inside the library (the sub-agent measured 0 hits in 3000 constructions without forcing it); not a schedule the simulator controls',
  'C18-8': 'needs a chain constructed from inside a running task (re-entrancy); histories are sequences of top-level operations',
+ 'C05-10': 'FigureData (a matplotlib figure that cannot be pickled): figures are not among the generated data kinds (DESIGN: FigureData excluded)',
+ 'C06-12': 'needs a forced re-run of one computation that returns another value (an empty list after a non-empty one), i.e. a non-deterministic computation; generated computations are deterministic as the properties assume',
+ 'C07-12': 'needs a later forced recomputation that returns a shorter list than the interrupted one wrote, i.e. a non-deterministic computation',
+ 'C14-10': 'needs a forced and a non-forced call overlapping on a key that has no file yet, with "force always recomputes" (a C14 clause) judged under concurrency; schedsim (C15) does not demand that a forced call computes, cachesim (C14) is sequential',
+ 'C16-11': 'needs two threads making their first call of one cached method at the same moment (unsynchronised check-then-set in a registry); cachesim is sequential and C16 does not speak about threads',
+ 'C18-10': 'needs two runs of one task class with different keys interleaved inside Data.save_run_info (shared temp file name); storesim runs one simulated process at a time',
+ 'C18-12': 'needs one python Config object listed in the `uses` of several top-level configs with different contexts; generated configurations are files / dicts / fresh Config objects per rendering',
+ 'C20-12': 'needs a directory result holding a relative symlink that points outside its own directory; generated directory values hold files and empty directories only',
+ 'C20-10': 'neutralised by the F18 repair (82f9451): it needed the empty target file an interrupted copy used to leave; after the repair the rebased change no longer changes behaviour for deterministic tasks (demo exits 0 with and without it)',
 }
 rows = []
 for d in sorted(os.listdir('/verif/seeded')):
@@ -29,8 +46,10 @@ for d in sorted(os.listdir('/verif/seeded')):
     inv = re.match(r'(I-[\w-]+)', msg)
     pid = d.split('-')[0]
     rnd = (int(d.split('-')[1]) - 1) // 3 + 1
+    if d in cross_res and cross_res[d][1] == 'CAUGHT':
+        cross[d] = cross_res[d][0]
     meta = {'property': pid, 'id': d, 'round': rnd,
-            'origin': 'written by an independent sub-agent that was given only the property text (round 2: plus one-line descriptions of the round-1 changes to avoid) and a scratch git worktree of /repo - nothing from /verif',
+            'origin': 'written by an independent sub-agent that was given only the property text (rounds 2-4: plus one-line descriptions of the earlier rounds\' changes to avoid) and a scratch git worktree of /repo - nothing from /verif',
             'what': lines[0][:300], 'needs_to_manifest': ' '.join(lines[1:6])[:900],
             'confirmed': {'applies_to': 'current /repo HEAD', 'existing_suite_with_change': '128 passed', 'demo_exit_with_change': 1, 'demo_exit_without_change': 0,
                           'how': 'tools/confirm_mutant.sh <dir> (scratch copy of /repo under /dev/shm, git apply, pytest, demo with/without)'},
@@ -39,9 +58,9 @@ for d in sorted(os.listdir('/verif/seeded')):
     if d in not_caught and st != 'CAUGHT':
         meta['detection']['result'] = 'NOT CAUGHT (by design)'
         meta['detection']['why'] = not_caught[d]
-    if d in cross:
-        meta['detection']['also'] = f'owning check {pid} does not explore crashes by design; caught by: tools/run_mutant.sh seeded/{d}/patch.diff {cross[d]} --tier quick'
+    if d in cross and st != 'CAUGHT':
+        meta['detection']['also'] = f'the defect belongs to another property\'s fault space (crash / interleaving / other engine): caught by: tools/run_mutant.sh seeded/{d}/patch.diff {cross[d]} --tier quick'
     json.dump(meta, open(p + '/meta.json', 'w'), indent=1)
-    rows.append((d, st if st == 'CAUGHT' else (f'caught by {cross[d]}' if d in cross else ('not caught (by design)' if d in not_caught else st)), inv.group(1) if inv else ''))
+    rows.append((d, st if st == 'CAUGHT' else (f'caught by {cross[d]}' if d in cross else ('not caught (by design)' if d in not_caught else st)), inv.group(1) if inv and st == 'CAUGHT' else ''))
 print(len(rows), sum(1 for r in rows if r[1] == 'CAUGHT'))
 open('/tmp/matrix_table2.md', 'w').write('\n'.join(f'| {a} | {b} | {c} |' for a, b, c in rows))
